@@ -39,6 +39,11 @@ CHECKS["C16"] = dict(engine=E2, cat="other", design="DESIGN.md §4 C16",
     technique="CrossHair (z3) symbolic execution of the real update_file_custom_metadata on a symbolic file and of update_custom_metadata on real KeyValue objects; replay on real files",
     text="In-place footer rewrite for every data length and every old/new footer length (so every footer delta): nothing before the footer is written and the file is exactly data ++ footer ++ len32 ++ PAR1; merge rules compared with the dict-update-with-None-deletes model over str/bytes/non-ASCII key spellings; write-time values decode back verbatim.",
     note="File is a SymFile shim (length + write log); thrift (de)serialisation stubbed to segments of symbolic length (its content is C10). Merge rules over a 4x4 key/value alphabet, <=2 existing entries, <=2 updates.")
+E3 = "E3-pyxlift"
+CHECKS["C15"] = dict(engine=E3, cat="other", design="DESIGN.md §4 C15",
+    technique="CrossHair (z3) symbolic execution of _assemble_objects lifted from cencoding.pyx (drift-guarded against the generated C) vs a Dremel reference; counterexamples replayed on the compiled function",
+    text="Record assembly for 3-level LIST columns: the real _assemble_objects (lifted from the .pyx each run) is executed page by page over all valid definition/repetition level streams of the bounded length and every page split position, for optional/required list x optional/required element, and must equal standard record assembly.",
+    note="Bounded: streams of 3 (thorough 4) level entries, 1-2 page splits. Trusts the mechanical lift (types stripped, integer wrap, index obligations) - tied to the compiled code by the quoted-line drift guard and by replaying every counterexample on the compiled function. MAP zipping and dictionary dereference (numpy) outside.")
 NA = {
     "C17": "dtype/categorical/index prediction vs what pandas allocates: no symbolic model of pandas' allocation is within reach and prediction and allocation share one function; row counts are decided under C06",
     "C20": "quantifies over CPython thread schedules of code running in pandas/numpy/C extensions; CrossHair executes one thread and no engine here gives a semantics for interleaved bytecode; a hand-written interleaving model would not be the real code",
